@@ -21,6 +21,8 @@ def Oracles.ask (o : Oracles) (fn : String) (args : List JV) : R :=
 
 def jbool (b : Bool) : Option JV := some (.bool b)
 def jnum (f : F64) : Option JV := some (.num (Num.ofF64 f))
+/-- `JsonValue::from_finite`: an overflowing arithmetic result is nothing -/
+def jnumFinite (f : F64) : Option JV := if f.isFinite then jnum f else none
 def jusize (n : Nat) : JV := .num (.pos n)
 
 /-- `Option<JsonValue>::cmp`: `None` first -/
@@ -377,7 +379,7 @@ def callList (fn : String) (args : List Expr) (ctx : Ctx) : Option R :=
         | [] => some acc
         | .num n :: rest => sumGo (F64.add acc n.toF64) rest
         | _ :: _ => none
-      .ok ((sumGo F64.zero l).bind jnum)
+      .ok ((sumGo F64.zero l).bind jnumFinite)
     | _ => .ok none
   -- manipulations
   | "indexed" => some do
@@ -532,22 +534,22 @@ def callNumber (fn : String) (args : List Expr) (ctx : Ctx) : Option R :=
   match fn with
   | "+" => some (foldArgs ev ctx (fun (s : F64) v => .ok (match numArg v with
       | some x => .inr (F64.add s x)
-      | none => .inl none)) jnum args F64.zero)
+      | none => .inl none)) jnumFinite args F64.zero)
   | "*" => some (foldArgs ev ctx (fun (s : F64) v => .ok (match numArg v with
       | some x => .inr (F64.mul s x)
-      | none => .inl none)) jnum args (F64.ofNat 1))
+      | none => .inl none)) jnumFinite args (F64.ofNat 1))
   | "-" => some do
     if args.length = 1 then
       match numArg (← a 0) with
-      | some y => .ok (jnum (F64.sub F64.zero y))
+      | some y => .ok (jnumFinite (F64.sub F64.zero y))
       | none => .ok none
     else
       match numArg (← a 0), numArg (← a 1) with
-      | some x, some y => .ok (jnum (F64.sub x y))
+      | some x, some y => .ok (jnumFinite (F64.sub x y))
       | _, _ => .ok none
   | "/" => some do
     match numArg (← a 0), numArg (← a 1) with
-    | some x, some y => if y.isZero then .ok none else .ok (jnum (F64.div x y))
+    | some x, some y => if y.isZero then .ok none else .ok (jnumFinite (F64.div x y))
     | _, _ => .ok none
   | "%" => some do
     match numArg (← a 0), numArg (← a 1) with
